@@ -12,7 +12,7 @@ import (
 func init() { registry["C09"] = checkC09 }
 
 func checkC09(c *Check) {
-	c.Explanation = "Decided on all paths of the gateway's TLS verifier and router: (R1) trust source — the certificate pool used as verification roots (or an equality test against the presented bytes) is populated from the on-chain query response, never only from the peer-presented certificate; (R2) in the client-certificate branch every return that can be nil passes through the success edge of x509 Verify, which is dominated by: exactly one certificate, parse ok, subject CN is an address, chain query ok with filter (owner = that address, serial = presented serial, state valid), exactly one valid result; verification uses ClientAuth key usage and the wall clock; rejections built with Wrap(nil, ..) count as nil returns; TLS requests client certs and at least TLS 1.2; (R3) every route whose handler reads the authenticated owner / lease id / deployment id sits behind requireOwner and the matching id middleware; (R4) the owner context value is set only from the verified peer certificate's CN after rejecting requests without one, the provider value only from the server's own address, lease/deployment ids are assembled from those two plus numeric path variables only, and every id passed to the cluster/manifest clients comes from those context values; (R5) the gateway packages keep no memo across requests (no sync.Map, no shared map access) and the TLS verifier is handed the chain query client itself."
+	c.Explanation = "Decided on all paths of the gateway's TLS verifier and router: (R1) trust source — the certificate pool used as verification roots (or an equality test against the presented bytes) is populated from the on-chain query response, never only from the peer-presented certificate; (R2) in the client-certificate branch every return that can be nil passes through the success edge of x509 Verify, which is dominated by: exactly one certificate, parse ok, subject CN is an address, chain query ok with filter (owner = that address, serial = presented serial, state valid), exactly one valid result; verification uses ClientAuth key usage and the wall clock; rejections built with Wrap(nil, ..) count as nil returns; TLS requests client certs and at least TLS 1.2; (R3) every route whose handler reads the authenticated owner / lease id / deployment id sits behind requireOwner and the matching id middleware; (R4) the owner context value is set only from the verified peer certificate's CN after rejecting requests without one, the provider value only from the server's own address, lease/deployment ids are assembled from those two plus numeric path variables only, and every id passed to the cluster/manifest clients comes from those context values; (R5) the gateway packages keep no memo across requests (no sync.Map, no shared map access) and the TLS verifier is handed the chain query client itself. removeLease hands the closed lease to the manager without a default case; every Leases request of ActiveLeasesForProvider is filtered by provider and state."
 	c.NotDecided = "cryptographic soundness of x509.Verify and the TLS stack; expiry arithmetic inside Verify"
 	l := c.L
 	cfgFn := l.Func("provider/gateway/utils", "", "NewServerTLSConfig")
@@ -470,7 +470,12 @@ func (c *Check) scopeProvenance() {
 				}
 				c.Ob("R4", "provider identity set in "+root.Name()+" from the server's own address", call.Pos(), okProv, "provider context value = "+val)
 			case "leaseContextKey":
-				c.Ob("R4", "lease id set in "+root.Name()+" from parseLeaseID", call.Pos(), root.Name() == "requireLeaseID" && val == "rest.parseLeaseID(p:req)#0" && okEdgeAt(call.Block(), mustCallOf(a[2])), val)
+				okLease := root.Name() == "requireLeaseID" && val == "rest.parseLeaseID(p:req)#0" && okEdgeAt(call.Block(), mustCallOf(a[2]))
+				if cv := mustCallOf(a[2]); !okLease && cv != nil && calleeMethod(cv) == "ParseLeasePath" && len(cv.Call.Args) > 0 {
+					// the parse helper was inlined: the id is parsed in place from the same five parts
+					okLease = root.Name() == "requireLeaseID" && strings.ReplaceAll(Sym(cv.Call.Args[0]), "*", "") == leasePathParts && okEdgeAt(call.Block(), cv)
+				}
+				c.Ob("R4", "lease id set in "+root.Name()+" from parseLeaseID", call.Pos(), okLease, val)
 			case "deploymentContextKey":
 				c.Ob("R4", "deployment id set in "+root.Name()+" from parseDeploymentID", call.Pos(), root.Name() == "requireDeploymentID" && val == "rest.parseDeploymentID(p:req)#0" && okEdgeAt(call.Block(), mustCallOf(a[2])), val)
 			}
@@ -480,12 +485,12 @@ func (c *Check) scopeProvenance() {
 		c.Fail("C09-R4 lost instances: %d context sets", nset)
 	}
 	// parse functions
-	pl := l.Func("provider/gateway/rest", "", "parseLeaseID")
-	for _, call := range callsIn(pl, false) {
-		if calleeMethod(call) == "ParseLeasePath" {
-			s := strings.ReplaceAll(Sym(call.Common().Args[0]), "*", "")
-			want := `[types.Address.String(rest.requestOwner(p:req)), mux.Vars(p:req)["dseq"], mux.Vars(p:req)["gseq"], mux.Vars(p:req)["oseq"], types.Address.String(rest.requestProvider(p:req))]`
-			c.Ob("R4", "lease id = (authenticated owner, dseq, gseq, oseq from the path, this provider)", call.Pos(), s == want, s)
+	if pl := l.FuncOpt("provider/gateway/rest", "", "parseLeaseID"); pl != nil {
+		for _, call := range callsIn(pl, false) {
+			if calleeMethod(call) == "ParseLeasePath" {
+				s := strings.ReplaceAll(Sym(call.Common().Args[0]), "*", "")
+				c.Ob("R4", "lease id = (authenticated owner, dseq, gseq, oseq from the path, this provider)", call.Pos(), s == leasePathParts, s)
+			}
 		}
 	}
 	pd := l.Func("provider/gateway/rest", "", "parseDeploymentID")
@@ -544,6 +549,7 @@ func (c *Check) scopeProvenance() {
 	c.noRequestMemo()
 	c.leaseClosedRouting("R4")
 	c.shellOnlyOnActiveLease("R4")
+	c.activeLeaseQueryFiltered("R4")
 	// the lease id the gateway assembled scopes the cluster calls through the namespace derived from it: that
 	// derivation covers every field of the id, the owner included (shared with C11-R4)
 	c.leaseNamespaceRule("R4")
@@ -784,3 +790,99 @@ func (c *Check) shellOnlyOnActiveLease(rule string) {
 		c.Info(rule, "shell route: no Exec call found in the handler, activity guard not decided", hf.Pos(), "")
 	}
 }
+
+// activeLeaseQueryFiltered: on start the manifest and cluster services learn "the leases held at this provider" from
+// client.ActiveLeasesForProvider; the gateway then accepts manifests and shell requests for exactly those. Every
+// request that function sends to the Leases query must carry the provider filter built from its argument and a
+// state filter: a follow-up request (pagination, retry) built without them returns other providers' and closed
+// leases as this provider's active ones.
+func (c *Check) activeLeaseQueryFiltered(rule string) {
+	l := c.L
+	fn := l.Func("client", "qclient", "ActiveLeasesForProvider")
+	c.Analysed(fnName(fn))
+	n := 0
+	for _, call := range callsIn(fn, false) {
+		if calleeMethod(call) != "Leases" {
+			continue
+		}
+		var req ssa.Value
+		for _, a := range call.Common().Args {
+			if strings.HasSuffix(a.Type().String(), "types.QueryLeasesRequest") {
+				req = a
+			}
+		}
+		if req == nil {
+			continue
+		}
+		n++
+		var leaves []ssa.Value
+		seen := map[ssa.Value]bool{}
+		var walk func(v ssa.Value)
+		walk = func(v ssa.Value) {
+			if seen[v] {
+				return
+			}
+			seen[v] = true
+			if ph, ok := v.(*ssa.Phi); ok {
+				for _, e := range ph.Edges {
+					walk(e)
+				}
+				return
+			}
+			leaves = append(leaves, v)
+		}
+		walk(req)
+		bad, undec := "", false
+		for _, lf := range leaves {
+			al, isAl := lf.(*ssa.Alloc)
+			if !isAl {
+				undec = true
+				continue
+			}
+			pv := storedAtPath(al, []string{"Filters", "Provider"})
+			sv := storedAtPath(al, []string{"Filters", "State"})
+			prov := pv != nil && strings.Contains(Sym(pv), "p:"+paramName(fn.Params[1]))
+			if !prov || sv == nil {
+				bad = "a request without the provider / state filter"
+			}
+		}
+		switch {
+		case bad != "":
+			c.Ob(rule, "every Leases request of ActiveLeasesForProvider is filtered by this provider and a state", call.Pos(), false, "a request is sent as "+bad+": leases of other providers (or closed ones) come back as this provider's active leases, and the gateway serves them")
+		case undec:
+			c.Info(rule, "ActiveLeasesForProvider: request not built in place, filters not decided", call.Pos(), short(Sym(req)))
+		default:
+			c.Ob(rule, "every Leases request of ActiveLeasesForProvider is filtered by this provider and a state", call.Pos(), true, "")
+		}
+	}
+	if n == 0 {
+		c.Fail("C09-%s lost instances: no Leases query in ActiveLeasesForProvider", rule)
+	}
+}
+
+// storedAtPath: the value stored into field path (e.g. Filters.Provider) of the struct allocated by al, or nil.
+func storedAtPath(al ssa.Value, path []string) ssa.Value {
+	if al.Referrers() == nil {
+		return nil
+	}
+	for _, r := range *al.Referrers() {
+		fa, ok := r.(*ssa.FieldAddr)
+		if !ok || fieldName(fa.X.Type(), fa.Field) != path[0] {
+			continue
+		}
+		if len(path) > 1 {
+			if v := storedAtPath(fa, path[1:]); v != nil {
+				return v
+			}
+			continue
+		}
+		for _, rr := range *fa.Referrers() {
+			if st, isSt := rr.(*ssa.Store); isSt && st.Addr == ssa.Value(fa) {
+				return st.Val
+			}
+		}
+	}
+	return nil
+}
+
+const leasePathParts = `[types.Address.String(rest.requestOwner(p:req)), mux.Vars(p:req)["dseq"], mux.Vars(p:req)["gseq"], mux.Vars(p:req)["oseq"], types.Address.String(rest.requestProvider(p:req))]`
